@@ -233,10 +233,9 @@ theorem c13_status_of_last (c0 : Cfg) (t : Term) (ht : t = .join ∨ t = .captur
   · refine ⟨(if capPipe (effective c0 .capture) .capture then [Act.mk 0 true true] else []) ++
         (List.range (effective c0 .capture).n).flatMap (stageOk (effective c0 .capture) (att2 (effective c0 .capture) .capture)) ++
         (if capPipe (effective c0 .capture) .capture then [Act.close ⟨0, .w⟩] else []) ++
-        ([.io] ++ (commWriteEnds (effective c0 .capture)).map Act.close ++ [.waitRet ((effective c0 .capture).n - 1)] ++
+        ([.io] ++ (commEnds (effective c0 .capture) .capture).map Act.close ++ [.waitRet ((effective c0 .capture).n - 1)] ++
           dropVec (effective c0 .capture) (commEnds (effective c0 .capture) .capture)
-            (fun j => j = (effective c0 .capture).n - 1) (effective c0 .capture).n ++
-          (commReadEnds (effective c0 .capture) .capture).map Act.close),
+            (fun j => j = (effective c0 .capture).n - 1) (effective c0 .capture).n),
       by simp only [tail, effective_ioFails, hio, Bool.false_eq_true, if_false, List.append_assoc], ?_, ?_, ?_⟩
     · simp only [List.filterMap_append, wr_stages, wr_drop, wr_closes]
       cases capPipe (effective c0 .capture) .capture <;> simp [s1, s2, s3, s4, hnn]
